@@ -89,6 +89,9 @@ func NewBuilderSized(
 	}, nil
 }
 
+// maxKeySize is the largest key length representable in the temporary bucket files (uint16 length prefix).
+const maxKeySize = 65535
+
 // SetKind sets the kind of the index.
 // If the kind is already set, it is overwritten.
 func (b *Builder) SetKind(kind []byte) error {
@@ -123,6 +126,9 @@ func (b *Builder) getValueSize() int {
 // Index generation will fail if the same key is inserted twice.
 // The writer must not pass a value greater than targetFileSize.
 func (b *Builder) Insert(key []byte, value []byte) error {
+	if len(key) > maxKeySize {
+		return fmt.Errorf("key too long: %d bytes (max %d)", len(key), maxKeySize)
+	}
 	return b.buckets[b.Header.BucketHash(key)].writeTuple(key, value)
 }
 
